@@ -868,6 +868,12 @@ func c07ChqStress(capacity, p, k, n int, mode string, seed int64) string {
 	idle := func() bool { return time.Since(time.Unix(0, atomic.LoadInt64(&lastProgress))) > idleDur }
 	stranded := false
 	producersDone := false
+	var emptySince time.Time
+	dropped := false
+	surelyLost := 2 * time.Second
+	if atomic.LoadInt32(&c07Lost) >= 3 {
+		surelyLost = 500 * time.Millisecond
+	}
 	for !stranded {
 		if !producersDone {
 			select {
@@ -879,6 +885,18 @@ func c07ChqStress(capacity, p, k, n int, mode string, seed int64) string {
 			break
 		} else {
 			time.Sleep(200 * time.Microsecond)
+			// Every Put/Offer has returned and the buffer is empty: each accepted value has already been handed to
+			// some consumer's receive, which only has to be scheduled to count it.  If the books still do not balance
+			// after a (generous) while, the value was dropped inside a wrapper — no need to sit out the full idle time.
+			if len(ch) == 0 {
+				if emptySince.IsZero() {
+					emptySince = time.Now()
+				} else if time.Since(emptySince) > surelyLost {
+					stranded, dropped = true, true
+				}
+			} else {
+				emptySince = time.Time{}
+			}
 		}
 		if idle() {
 			stranded = true
@@ -947,6 +965,9 @@ func c07ChqStress(capacity, p, k, n int, mode string, seed int64) string {
 				}
 			}
 		}
+	}
+	if res == "" && dropped {
+		res = fmt.Sprintf("viol lost delivered=%d of %d accepted (of %d): every Put returned and the channel is empty", del, acc, total)
 	}
 	if res == "" && stranded {
 		res = fmt.Sprintf("viol stranded delivered=%d of %d accepted (of %d), no progress for %v", del, acc, total, idleDur)
